@@ -183,7 +183,7 @@ PROPS["C16"] = {
     "verus": [],
     "bounded": lambda tier: [("dna_string::verif::d_from_acgt_bytes_b_31", "from_acgt_bytes on 31 bytes, vector path available and not (feature detection nondeterministic)"),
                              ("dna_string::verif::d_to_bytes_b_33", "to_ascii_vec on 33 bases"),
-                             ("dna_string::verif::d_hashn_concrete", "from_acgt_bytes_hashn on two concrete 5-byte reads (a single-input check, not a proof)")],
+                             ("dna_string::verif::d_hashn_concrete", "from_acgt_bytes_hashn on eight concrete 8-byte reads (a fixed-input check, not a proof)")],
     "design_ref": "DESIGN.md §6 C16",
     "undecided": ["from_acgt_bytes chunk loop / tail composition for every length and to_ascii_vec round trip: fixed-length bounded stand-ins only",
                   "from_dna_only_string: no tractable harness (str/char iteration exhausts CBMC), not decided; from_acgt_bytes_hashn: only a concrete two-read check (symbolic SipHash is intractable)"],
@@ -219,7 +219,7 @@ PROPS["C18"] = {
 
 PROPS["C07"] = {
     "title": "Minimizer partition covers every k-mer exactly once with a true minimizer",
-    "kani": lambda tier: kfam(["k_extend_right", "k_len"], tier, 2, 8),
+    "kani": lambda tier: kfam(["k_extend_right", "k_len"], tier, 2, 8) + ["msp::verif::m_minpos_order"],
     "verus": [("scan", None)],
     "bounded": lambda tier: [("msp::verif::m_scan_p2_k2m5", "P = Kmer2, k = 2, m = 5, score table values in 0..2")] if tier == "thorough" else [],
     "design_ref": "DESIGN.md §6 C07",
